@@ -1,4 +1,114 @@
-(* placeholder until ApiProofs.v lands *)
-From Coercion.Api Require Import ApiModel.
-Theorem c12_placeholder : True. Proof. exact I. Qed.
-Print Assumptions c12_placeholder.
+(* C12 - A plan executes at most once; repeated or racing Start is rejected safely; the API never panics.
+   Model: Coercion.Api.ApiModel (small-step: Start = enter(lock) / waiter check / read+validate / launch;
+   engine = Running write / terminal write / close waiter / delete waiter; Submit, vault Create/Delete, clock).
+   `fixed ms` is the code as it is now (mutex, waiter check, Read(unknown) is an error) with maxSubmit = ms;
+   `reach c s`: s is reachable from the empty workstream by ANY sequence of steps (any interleaving of any
+   number of concurrent callers and engine goroutines). Only statements and `exact`; proofs in ApiProofs.v,
+   computed witnesses in ApiWitness.v. *)
+From Coq Require Import List ZArith Bool Arith.
+From Coercion.Base Require Import Plan.
+From Coercion.Api Require Import ApiModel ApiProofs ApiWitness.
+Import ListNotations.
+Local Open Scope Z_scope.
+
+(* In every reachable state:
+   1. every plan has been launched at most once;
+   2. at most one Start call is between entry and return (mutual exclusion by startMu);
+   3. no step of any call or goroutine panics, and executions never decrease (so "launched or finished" is stable);
+   4. a Start call in progress on a plan that has been launched (still running, or finished): its waiter check
+      and its read change no plan, the clock or the id supply; the read ends it with an error; it cannot launch;
+   5. a plan with submit + maxSubmit < now is rejected by the read of any Start;
+   6. a launch happens only for a plan that the same call read - while holding the mutex, at a time tv <= now -
+      as NotStarted, valid, with tv <= submit + maxSubmit, maxSubmit <> 0, and never launched; it makes the
+      plan's executions 1, registers its waiter, ends the call with nil and touches no other plan. *)
+Theorem c12_at_most_once :
+  forall ms s, reach (fixed ms) s ->
+    (forall id, (execs (get s id) <= 1)%nat)
+    /\ (length (inprog s) <= 1)%nat
+    /\ (forall l s' r, step (fixed ms) s l = Some (s', r) ->
+          r <> RPanic /\ forall id, (execs (get s id) <= execs (get s' id))%nat)
+    /\ (forall k id stg, nth_error (inprog s) k = Some (id, stg) -> (1 <= execs (get s id))%nat ->
+          (forall s' r, step (fixed ms) s (LStartCheck k) = Some (s', r) ->
+             plans s' = plans s /\ next s' = next s /\ now s' = now s
+             /\ ((r = RRejected /\ inprog s' = []) \/ (r = RNone /\ inprog s' = [(id, SChecked)])))
+          /\ (forall s' r, step (fixed ms) s (LStartRead k) = Some (s', r) ->
+             plans s' = plans s /\ next s' = next s /\ now s' = now s /\ inprog s' = []
+             /\ (r = RRejected \/ r = RNotFound))
+          /\ step (fixed ms) s (LStartLaunch k) = None)
+    /\ (forall k id p t, nth_error (inprog s) k = Some (id, SChecked) -> stored (get s id) = Some p ->
+          pl_submit p = Some t -> t + ms < now s ->
+          step (fixed ms) s (LStartRead k) = Some (with_inprog s (remove_nth k (inprog s)), RRejected))
+    /\ (forall k s' r, step (fixed ms) s (LStartLaunch k) = Some (s', r) ->
+          r = ROk /\ exists id tv p t,
+            nth_error (inprog s) k = Some (id, SValidated tv) /\ stored (get s id) = Some p
+            /\ pl_status p = NotStarted /\ pl_valid p = true /\ pl_submit p = Some t
+            /\ tv <= now s /\ tv <= t + ms /\ ms <> 0
+            /\ execs (get s id) = 0%nat /\ execs (get s' id) = 1%nat /\ waiter (get s' id) = WOpen
+            /\ inprog s' = [] /\ (forall i, i <> id -> get s' i = get s i)).
+Proof. exact c12_at_most_once_proof. Qed.
+Print Assumptions c12_at_most_once.
+
+(* Whole calls of a sequential caller (no Start in progress when it calls): Start on a plan that was launched -
+   running or finished - returns an error and the state afterwards is the state before. *)
+Theorem c12_restart_rejected_unchanged :
+  forall ms s id, reach (fixed ms) s -> inprog s = [] -> (1 <= execs (get s id))%nat ->
+  exists r, start_call (fixed ms) s id = Some (s, r) /\ (r = RRejected \/ r = RNotFound).
+Proof. exact start_call_after_launch. Qed.
+Print Assumptions c12_restart_rejected_unchanged.
+
+(* ... Start on a plan whose submission is older than maxSubmit returns an error and changes nothing
+   (any state, reachable or not). *)
+Theorem c12_stale_cannot_start :
+  forall ms s id p t, inprog s = [] -> stored (get s id) = Some p -> pl_submit p = Some t -> t + ms < now s ->
+  start_call (fixed ms) s id = Some (s, RRejected).
+Proof. exact start_call_stale. Qed.
+Print Assumptions c12_stale_cannot_start.
+
+(* ... and the property is not met by rejecting everything: Start on a plan that validates and has no waiter
+   returns nil and launches it - it had 0 executions, now has exactly 1. *)
+Theorem c12_startable_plan_starts_once :
+  forall ms s id p, reach (fixed ms) s -> inprog s = [] -> stored (get s id) = Some p ->
+  waiter (get s id) = WNone -> validate (fixed ms) (now s) p = true ->
+  exists s', start_call (fixed ms) s id = Some (s', ROk)
+             /\ execs (get s id) = 0%nat /\ execs (get s' id) = 1%nat /\ waiter (get s' id) = WOpen
+             /\ engines (get s' id) = [ESpawned] /\ inprog s' = [].
+Proof. exact start_call_fresh. Qed.
+Print Assumptions c12_startable_plan_starts_once.
+
+(* No trace of the repaired model contains a panic. *)
+Theorem c12_no_trace_panics :
+  forall ms s tr s' rs, reach (fixed ms) s -> run (fixed ms) s tr = Some (s', rs) -> ~ In RPanic rs.
+Proof. exact run_no_panic. Qed.
+Print Assumptions c12_no_trace_panics.
+
+(* What the fix bought (and that the theorem is not vacuous): the SAME model with the repairs switched off -
+   the code before c931038 / 12fa98d - executes a plan twice (two Start calls one after the other, the second
+   before the first durable Running write), then panics on close of a nil channel; Status on an unknown id
+   panics and Plan/Wait return an empty plan with a nil error.  Each half of the repair alone is refuted too. *)
+Theorem c12_at_most_once_refuted_without_fix :
+  exists tr s rs, run (orig 1800000) (init 1000) tr = Some (s, rs) /\ execs (get s 0) = 2%nat.
+Proof. exact c12_refuted_without_fix. Qed.
+Print Assumptions c12_at_most_once_refuted_without_fix.
+
+Theorem c12_no_panic_refuted_without_fix :
+  exists tr s rs, run (orig 1800000) (init 1000) tr = Some (s, rs) /\ In RPanic rs.
+Proof. exact c12_refuted_without_fix_panics. Qed.
+Print Assumptions c12_no_panic_refuted_without_fix.
+
+Theorem c12_unknown_ids_refuted_without_fix :
+  results_of (orig 1800000) [LStatus 7; LPlan 7; LWait 7 false; LStartEnter 7; LStartCheck 0; LStartRead 0]
+  = Some [RPanic; REmpty; REmpty; RNone; RNone; RRejected].
+Proof. exact c12_refuted_without_s5_fix. Qed.
+Print Assumptions c12_unknown_ids_refuted_without_fix.
+
+Theorem c12_refuted_with_mutex_only :
+  execs_after {| use_lock := true; use_wcheck := false; read_absent_empty := false; max_submit := 1800000 |}
+              tr_seq 0 = Some 2%nat.
+Proof. exact mutex_without_waiter_check_refuted. Qed.
+Print Assumptions c12_refuted_with_mutex_only.
+
+Theorem c12_refuted_with_waiter_check_only :
+  execs_after {| use_lock := false; use_wcheck := true; read_absent_empty := false; max_submit := 1800000 |}
+              tr_race 0 = Some 2%nat.
+Proof. exact waiter_check_without_mutex_refuted. Qed.
+Print Assumptions c12_refuted_with_waiter_check_only.
